@@ -72,6 +72,27 @@ MUTANTS = [
     ('eintr-not-retried', 'C07', R,
      "                if e.errno == errno.EINTR:\n",
      "                if e.errno == errno.EINTR:\n                    raise\n"),
+    ('at-level-strict', 'C03', F,
+     "            if options.at_level <= 0 or level <= options.at_level:",
+     "            if options.at_level <= 0 or level < options.at_level:"),
+    ('child-keeps-all-layers', 'C03', FI,
+     "                if name != self.runner.options.resume_layer:\n                    layers.pop(name)",
+     "                if False:\n                    layers.pop(name)"),
+    ('listing-unordered', 'C03', 'src/zope/testrunner/listing.py',
+     "            self.runner.options.output.list_of_tests(tests, layer_name)",
+     "            self.runner.options.output.list_of_tests(sorted(tests, key=str), layer_name)"),
+    ('negated-pattern-ignored', 'C03', FI,
+     "        return (any(search(value) for search in selected) and not\n                any(search(value) for search in unselected))",
+     "        return any(search(value) for search in selected)"),
+    ('shuffle-seed-varies-per-child', 'C11', S,
+     "        rng = random.Random(self.seed)\n",
+     "        rng = random.Random(self.seed)\n        self.seed += (self.runner.options.resume_number or 0)\n"),
+    ('shuffle-after-filter', 'C11', R,
+     "        self.features.append(zope.testrunner.shuffle.Shuffle(self))\n        self.features.append(zope.testrunner.process.SubProcess(self))\n        self.features.append(zope.testrunner.filter.Filter(self))",
+     "        self.features.append(zope.testrunner.process.SubProcess(self))\n        self.features.append(zope.testrunner.filter.Filter(self))\n        self.features.append(zope.testrunner.shuffle.Shuffle(self))"),
+    ('shuffle-drops-a-test', 'C11', S,
+     "            self.runner.tests_by_layer_name[layer] = suite.__class__(tests)",
+     "            self.runner.tests_by_layer_name[layer] = suite.__class__(tests[1:] if len(tests) > 3 else tests)"),
     ('stop-only-on-errors', 'C16', R,
      "            failure_or_error = None\n", "            failure_or_error = None\n"),
 ]
